@@ -794,7 +794,7 @@ class Run:
         walk(body, f)
         return names
 
-    def _summary_loop(self, what, body, env):
+    def _summary_loop(self, what, body, env, outer=None):
         """a data-dependent loop: its body is evaluated once from an arbitrary iteration (loop-carried locals are
         unknown at the head), bracketed by loop markers; afterwards the carried locals hold 'whatever the loop left'"""
         carried = self._assigned_locals(body, env)
@@ -811,7 +811,10 @@ class Run:
             how = "continue"
         self.act("loop-end", [("unk", how)])
         for n in carried:
-            env[n] = ("unk", "loop(%s)" % showv(env2.get(n, env[n])))
+            val = ("unk", "loop(%s)" % showv(env2.get(n, env[n])))
+            env[n] = val
+            if outer is not None and n in outer:
+                outer[n] = val
         return UNIT
 
     def e_While(self, e, env):
@@ -823,13 +826,13 @@ class Run:
             what = "while %s matches %s" % (showv(v), self.showpat(cond["pat"]))
         else:
             what = "while " + show_env(cond, env2)
-        return self._summary_loop(what, e["body"], env2)
+        return self._summary_loop(what, e["body"], env2, env)
 
     def e_For(self, e, env):
         env2 = dict(env)
         it = self.eval(e["iter"], env2) if e["iter"]["k"] != "Range" else ("unk", show_env(e["iter"], env2))
         self.match(e["pat"], ("unk", "item"), env2)
-        return self._summary_loop("for _ in " + showv(it), e["body"], env2)
+        return self._summary_loop("for _ in " + showv(it), e["body"], env2, env)
 
     def e_Try(self, e, env):
         v = self.eval(e["e"], env)
